@@ -82,14 +82,26 @@ def check_dynamic(ctx, rule="C02.T1"):
             seen.append(args)
             return ["<cursor>", fc, "<length>"]
 
-        ev = fde.FDE(repo, f, {"self.types": types, "self.count": "<count>"}, env={params[0]: "<data>", params[1]: "<start>"}, inline=True, hooks={"self.decode_item_header": hook})
+        def make(dec):
+            seen.clear()
+            return fde.FDE(repo, f, {"self.types": types, "self.count": "<count>"}, env={params[0]: "<data>", params[1]: "<start>"}, inline=True, hooks={"self.decode_item_header": hook}, decisions=dec)
+
         try:
-            tr = ev.run()
+            outs = fde.explore(make)
         except fde.Undecided as exc:
             raise AnalysisError(f"{q}: cannot evaluate for format code {fc}: {exc}")
-        return tr, seen
+        # branches that the format code does not decide: the outcome must not depend on them
+        tr = outs[0][1]
+        for dec, other in outs[1:]:
+            if (other.raised is None) != (tr.raised is None) or repr(other.assigned.get("self.value")) != repr(tr.assigned.get("self.value")) or repr(other.returned) != repr(tr.returned):
+                extra.setdefault(" / ".join(t for t, _ in dec), set()).add(fc)
+                if tr.raised and not other.raised:
+                    tr = other  # keep the accepting outcome as the primary one; the dependence itself is reported once
+        return tr, list(seen)
 
+    extra: dict = {}
     outcomes = {fc: evaluate(fc, []) for fc in range(64)}
+    known_extra = {c: sorted(v) for c, v in extra.items()}
     table = {codes[fc] for fc, (tr, _) in outcomes.items() if fc in codes and not tr.raised and tr.assigned.get("self.value") is not None}
     missing = [c for c in CONCRETE if c not in table]
     ctx.ob(rule, q, not missing, f"all {len(CONCRETE)} concrete item classes are decodable by their format code" if not missing else
@@ -111,8 +123,9 @@ def check_dynamic(ctx, rule="C02.T1"):
     refused = sorted(fc for fc, (tr, _) in outcomes.items() if tr.raised)
     want = sorted(fc for fc in range(64) if fc not in codes)
     only_u1 = {fc for fc in range(64) if not evaluate(fc, [fde.ClsTok("U1")])[0].raised}
-    ok = refused == want and only_u1 == {repo.const("U1", "format_code")}
+    ok = refused == want and only_u1 == {repo.const("U1", "format_code")} and not known_extra
     ctx.ob(rule, q, ok, "the only refusal is an unsupported or disallowed format code" if ok else
+           (f"Dynamic.decode also refuses depending on {list(known_extra)[:2]} (format codes {[oct(x) for x in list(known_extra.values())[0][:4]]}...): valid items of an allowed format are rejected (e.g. a byte length compared with an element count)" if known_extra else "") +
            f"Dynamic.decode refuses format codes {[oct(x) for x in refused if x not in want]} of defined items / accepts undefined {[oct(x) for x in want if x not in refused]}; a Dynamic([U1]) accepts {sorted(oct(x) for x in only_u1)}: valid items of an allowed format are rejected or disallowed ones accepted", key="only-refusal", where=f.where)
     # an unrestricted Dynamic supports every entry
     ts = repo.cls("Dynamic").methods.get("__type_supported") or repo.cls("Dynamic").methods.get("_Dynamic__type_supported")
